@@ -16,4 +16,8 @@ def by_pattern(arms, pattern):
 def batch(kind, arms, pattern, rewards, contexts, context_free):
     """["fit"|"partial_fit", D, R, X|None] with decisions arms[pattern[i] mod k]."""
     n = len(pattern)
-    return [kind, by_pattern(arms, pattern), list(rewards[:n]), None if context_free else [list(r) for r in contexts[:n]]]
+    # contexts are passed as floats: np.asarray then yields a C-contiguous float64 array, which the library stores
+    # without copying - the path on which aliasing between its caches and its history can occur (integer contexts
+    # are what C03 / C06 / C11 / C12 use)
+    return [kind, by_pattern(arms, pattern), list(rewards[:n]),
+            None if context_free else [[float(v) for v in r] for r in contexts[:n]]]
